@@ -3,8 +3,8 @@ package proxyrig
 import (
 	"fmt"
 
-	"github.com/cossacklabs/acra/pseudonymization/storage"
 	tokenCommon "github.com/cossacklabs/acra/pseudonymization/common"
+	"github.com/cossacklabs/acra/pseudonymization/storage"
 
 	"verif/harness/internal/rig/fakemysql"
 	"verif/harness/internal/rig/fakepg"
